@@ -259,7 +259,9 @@ def random_program(rng):
 # ---------------------------------------------------------------------------------------------------------------------
 
 def fault_of(base, f):
-    """f = [relative index, exception class name, moment]"""
+    """f = [relative index, exception class name, moment]; moment None = the default of harness/tracing.py: the call raises
+    INSTEAD of being performed, except `close`, which really closes the handle and then raises (a `close` that leaves the
+    handle open is outside the model: `exec` lets every close end the connection)"""
     return Fault(index=base + f[0], exc=EXC_BY_NAME[f[1]], when=f[2])
 
 
@@ -642,21 +644,21 @@ def _run(ctx, workdir):
         for k in ks:
             cls = EXC_CLASSES[(b['id'] + k) % len(EXC_CLASSES)].__name__
             call = obs['events'][k]['call']
-            g.add(b['name'], b['program'], b['opts'], b['warm'], faults=[[k, cls, 'before']], parent=b['id'])
+            g.add(b['name'], b['program'], b['opts'], b['warm'], faults=[[k, cls, None]], parent=b['id'])
             if call in ('commit', 'rollback'):
                 g.add(b['name'], b['program'], b['opts'], b['warm'], faults=[[k, cls, 'after']], parent=b['id'])
             if ctx.thorough or rng.random() < 0.25:
                 # a second fault inside the error handling of the first
                 d = rng.randint(1, 4)
-                g.add(b['name'], b['program'], b['opts'], b['warm'], faults=[[k, cls, 'before'], [k + d, 'OperationalError', 'before']], parent=b['id'])
+                g.add(b['name'], b['program'], b['opts'], b['warm'], faults=[[k, cls, None], [k + d, 'OperationalError', None]], parent=b['id'])
             if ctx.thorough and k % 3 == 0:
-                g.add(b['name'], b['program'], b['opts'], b['warm'], faults=[[k, ['MemoryError', 'KeyboardInterrupt'][k % 2], 'before']], parent=b['id'])
+                g.add(b['name'], b['program'], b['opts'], b['warm'], faults=[[k, ['MemoryError', 'KeyboardInterrupt'][k % 2], None]], parent=b['id'])
         # every exception class at the first write and at the first commit
         if (b['name'] in QUICK_FULL_FAULTS and not b['warm']) or (ctx.thorough and not b['name'].startswith('random')):
             firstw = [i for i, e in enumerate(obs['events']) if e['kind'] in ('insert', 'update', 'delete')][:1]
             commits = [i for i, e in enumerate(obs['events']) if e['call'] == 'commit'][:1]
             for k in firstw + commits:
-                for c in EXC_CLASSES: g.add(b['name'], b['program'], b['opts'], b['warm'], faults=[[k, c.__name__, 'before']], parent=b['id'])
+                for c in EXC_CLASSES: g.add(b['name'], b['program'], b['opts'], b['warm'], faults=[[k, c.__name__, None]], parent=b['id'])
         # SIGKILL
         kks = list(range(n + 1))
         if not (ctx.thorough or (b['name'] in QUICK_FULL_KILLS and not b['warm'])):
